@@ -1,0 +1,22 @@
+//go:build verif
+
+package req
+
+import (
+	"io"
+	"time"
+)
+
+// Verification hooks for property C17 (progress callbacks): constructors for the unexported
+// callbackWriter / callbackReader so that the harness can drive them with scripted writers/readers.
+// lastAgo shifts the initial lastTime into the past.
+
+// VerifC17CallbackWriter returns a *callbackWriter around w.
+func VerifC17CallbackWriter(w io.Writer, totalSize int64, interval, lastAgo time.Duration, cb func(written int64)) io.Writer {
+	return &callbackWriter{Writer: w, totalSize: totalSize, interval: interval, lastTime: time.Now().Add(-lastAgo), callback: cb}
+}
+
+// VerifC17CallbackReader returns a *callbackReader around rc.
+func VerifC17CallbackReader(rc io.ReadCloser, interval, lastAgo time.Duration, cb func(read int64)) io.ReadCloser {
+	return &callbackReader{ReadCloser: rc, interval: interval, lastTime: time.Now().Add(-lastAgo), callback: cb}
+}
